@@ -99,7 +99,15 @@ fn check_build(input: &ARecord, case: &mut Case) -> Result<(), Fail> {
     let code = rec.rdata.code();
     case.nontrivial = true;
     case.class(format!("type:{}", mnemonic(code)));
+    // SVCB / HTTPS values are reached through setters: in every other case each parameter is set to a placeholder
+    // first and then replaced (documented: "the previous entry will be replaced"), which must leave the same value
+    let history = (code == 64 || code == 65) && rec.ttl % 2 == 1;
+    let route = crate::bridge::build_variant(if history { 8 } else { 0 });
     let rr = lib("build_record", || build_record(rec))?.map_err(|e| Fail::new("harness:build", e))?;
+    drop(route);
+    if history {
+        case.class("svcb-parameters-replaced");
+    }
     let mut pk = simple_dns::Packet::new_reply(1);
     pk.answers.push(rr);
     let out = lib("build_bytes_vec", || pk.build_bytes_vec())?.map_err(|e| Fail::new("c10:build-failed", format!("{:?}", e)))?;
